@@ -163,6 +163,49 @@ def _published_chunk(acc, arg):
                     break
 
 
+FULL = ('F1', 'B2', 'L3', 'P4', 'R5', 'E6')
+
+
+def _reupdate_chunk(acc, combos):
+    """The associated location state already carries another (full, or partial) location and is then updated in place
+    (context transaction, get_context_state + update_from_sdc_location): the published scope must be the one of the new
+    location - nothing of the previous location may survive in it."""
+    from mcx import world
+    from sdc11073.location import SdcLocation
+    from sdc11073.provider.scopesfactory import mk_scopes
+    warnings.simplefilter('ignore')
+    w = world.World()
+    p = w.mk_provider()
+    for first, values in combos:
+        if all(v is None for v in values) or all(v is None for v in first):
+            continue
+        acc.add('states')
+        acc.evals()
+        acc.trace()
+        loc = _loc(values)
+        try:
+            p.set_location(_loc(first))
+            handle = [st.Handle for st in p.mdib.context_states.objects
+                      if st.NODETYPE.localname == 'LocationContextState' and st.ContextAssociation is not None
+                      and st.ContextAssociation.value == 'Assoc'][0]
+            with p.mdib.context_state_transaction() as tr:
+                st = tr.get_context_state(handle)
+                st.update_from_sdc_location(loc)
+            scopes = [x for x in mk_scopes(p.mdib).text if x.lower().startswith('sdc.ctxt.loc:')]
+            back = SdcLocation.from_scope_string(scopes[0]) if len(scopes) == 1 else None
+        except Exception as ex:  # noqa: BLE001
+            acc.violation(f'reupdate/raises/{_shape(first)}>{_shape(values)}', {'first': first, 'values': values, 'error': repr(ex)[:300]},
+                          case={'kind': 'reupdate', 'first': list(first), 'values': list(values)})
+            w = world.World()
+            p = w.mk_provider()
+            continue
+        acc.transition()
+        if back != loc:
+            acc.violation(f'reupdate/published-scope-is-not-the-new-location/{_shape(first)}>{_shape(values)}',
+                          {'first': first, 'values': values, 'scopes': scopes},
+                          case={'kind': 'reupdate', 'first': list(first), 'values': list(values)})
+
+
 SCHEMES = ['sdc.ctxt.loc', 'SDC.CTXT.LOC', 'sdc.ctxt.opr', 'http', 'urn', '']
 SEGMENTS = ['root', 'sdc.ctxt.loc.detail', 'a%2Fb', '', 'x y', '..']
 QUERIES = ['', '?', '?fac=a', '?fac=a&bed=b', '?fac', '?=a', '?fac=a&fac=b', '?fac=%ZZ', '?&&', '?fac=a#frag', '?bogus=1;x=2']
@@ -249,6 +292,13 @@ def run(ctx):
     combos = list(itertools.product(pub_domain, repeat=6))
     n = max(1, len(combos) // 32)
     ctx.pmap(_published_chunk, [combos[i:i + n] for i in range(0, len(combos), n)], chunksize=1)
+    # the location state is updated in place: previous location = full / each single element / the new one's complement
+    re_combos = [(FULL, c) for c in combos]
+    re_combos += [(tuple(FULL[i] if i == k else None for i in range(6)), c) for k in range(6) for c in combos[::(9 if ctx.quick else 1)]]
+    re_combos += [(tuple('zz' if v is None else None for v in c), c) for c in combos]
+    n = max(1, len(re_combos) // 64)
+    ctx.pmap(_reupdate_chunk, [re_combos[i:i + n] for i in range(0, len(re_combos), n)], chunksize=1)
+    ctx.note('reupdate_cases', len(re_combos))
     scopes = foreign_scopes()
     n = max(1, len(scopes) // 32)
     ctx.pmap(_foreign_chunk, [scopes[i:i + n] for i in range(0, len(scopes), n)], chunksize=1)
@@ -275,7 +325,9 @@ def replay(ctx, case):
         if not ok:
             ctx.violation(f'roundtrip/{_shape(case["values"])}', {'parsed': str(back)})
         return {'ok': ok}
-    if case['kind'] == 'published':
+    if case['kind'] == 'reupdate':
+        _reupdate_chunk(ctx, [(tuple(case['first']), tuple(case['values']))])
+    elif case['kind'] == 'published':
         _published_chunk(ctx, [tuple(case['values'])])
     else:
         _foreign_chunk(ctx, [case['scope']])
